@@ -7,6 +7,9 @@ def check(ctx):
     from rules import escapes
     escapes.check_write_methods(ctx, rep)
     nu, ni = units.check(ctx, rep)
+    from rules import zincspec as _zl
+    nla = _zl.check_lookahead_on_demand(ctx, rep)
+    rep.floor("propagated look-aheads in the number / date dispatcher", nla, 2)
     from rules import hayson
     noc = hayson.check_optional_members_complete(ctx, rep)
     rep.floor("optional Hayson members tied to an Option field", noc, 6)
